@@ -21,13 +21,13 @@ theorem containsAny_eq (ps fs : List Nat) : containsAny ps fs = fs.any (fun f =>
   | nil => rfl
   | cons f r ih => simp only [containsAny, containsProtocol_eq, ih, List.any_cons]; cases ps.contains f <;> simp
 
-def posCodes (codeOf : String → Nat) (fa : List String) : List Nat :=
-  (fa.filter (fun f => !f.startsWith "!")).map codeOf
-def negCodes (codeOf : String → Nat) (fa : List String) : List Nat :=
-  (fa.filter (fun f => f.startsWith "!")).map (fun f => codeOf (f.drop 1).toString)
+def posCodes (E : Env) (fa : List String) : List Nat :=
+  (fa.filter (fun f => !f.startsWith "!")).map E.codeOf
+def negCodes (E : Env) (fa : List String) : List Nat :=
+  (fa.filter (fun f => f.startsWith "!")).map (fun f => E.codeOf (f.drop 1).toString)
 
-theorem splitFilters_eq (codeOf : String → Nat) (fa : List String) :
-    splitFilters codeOf fa = (posCodes codeOf fa, negCodes codeOf fa) := by
+theorem splitFilters_eq (E : Env) (fa : List String) :
+    splitFilters E fa = (posCodes E fa, negCodes E fa) := by
   induction fa with
   | nil => rfl
   | cons f r ih =>
@@ -48,24 +48,24 @@ theorem addrLoop_eq (pos neg : List Nat) (as : List Addr) : addrLoop pos neg as 
     cases h1 : (neg.any fun f => a.protos.contains f) <;>
       cases h2 : (pos.isEmpty || pos.any fun f => a.protos.contains f) <;> (rw [hk, h1, h2]; simp)
 
-theorem anyFold_eq (f : String) (ps : List String) : anyFold f ps = ps.any (fun p => eqFold p f) := by
+theorem anyFold_eq (E : Env) (f : String) (ps : List String) : anyFold E f ps = ps.any (fun p => E.fold p f) := by
   induction ps with
   | nil => rfl
-  | cons p r ih => simp only [anyFold, ih, List.any_cons]; cases eqFold p f <;> simp
+  | cons p r ih => simp only [anyFold, ih, List.any_cons]; cases E.fold p f <;> simp
 
 /-- IPIP-484 protocol rule -/
-def protoKeep (ps fp : List String) : Bool :=
-  fp.isEmpty || fp.any fun f => (f == "unknown" && ps.isEmpty) || ps.any fun p => eqFold p f
+def protoKeep (E : Env) (ps fp : List String) : Bool :=
+  fp.isEmpty || fp.any fun f => (f == "unknown" && ps.isEmpty) || ps.any fun p => E.fold p f
 
-theorem protocolsAllowed_go_eq (ps fp : List String) :
-    protocolsAllowed.go ps fp = fp.any fun f => (f == "unknown" && ps.isEmpty) || ps.any fun p => eqFold p f := by
+theorem protocolsAllowed_go_eq (E : Env) (ps fp : List String) :
+    protocolsAllowed.go E ps fp = fp.any fun f => (f == "unknown" && ps.isEmpty) || ps.any fun p => E.fold p f := by
   induction fp with
   | nil => rfl
   | cons f r ih =>
     simp only [protocolsAllowed.go, anyFold_eq, ih, List.any_cons]
-    cases (f == "unknown" && ps.isEmpty) <;> cases (ps.any fun p => eqFold p f) <;> simp
+    cases (f == "unknown" && ps.isEmpty) <;> cases (ps.any fun p => E.fold p f) <;> simp
 
-theorem protocolsAllowed_eq (ps fp : List String) : protocolsAllowed ps fp = protoKeep ps fp := by
+theorem protocolsAllowed_eq (E : Env) (ps fp : List String) : protocolsAllowed E ps fp = protoKeep E ps fp := by
   unfold protocolsAllowed protoKeep
   rw [protocolsAllowed_go_eq]
   cases fp.isEmpty <;> simp
@@ -74,23 +74,23 @@ theorem protocolsAllowed_eq (ps fp : List String) : protocolsAllowed ps fp = pro
 /-! ### the reference predicate -/
 
 /-- IPIP-484 address filtering of an address list -/
-def specAddrs (codeOf : String → Nat) (addrs : List Addr) (fa : List String) : List Addr :=
-  if fa.isEmpty then addrs else addrs.filter (addrKeep (posCodes codeOf fa) (negCodes codeOf fa))
+def specAddrs (E : Env) (addrs : List Addr) (fa : List String) : List Addr :=
+  if fa.isEmpty then addrs else addrs.filter (addrKeep (posCodes E fa) (negCodes E fa))
 
 /-- IPIP-484 on one record, written as a specification -/
-def specApply (codeOf : String → Nat) (r : Rec) (fa fp : List String) : Option Rec :=
+def specApply (E : Env) (r : Rec) (fa fp : List String) : Option Rec :=
   if fa.isEmpty && fp.isEmpty then some r
-  else if !protoKeep r.protocols fp then none
+  else if !protoKeep E r.protocols fp then none
   else if fa.isEmpty || (r.addrs.isEmpty && fa.contains "unknown") then some r
-  else if (specAddrs codeOf r.addrs fa).isEmpty then none
-  else some { r with addrs := specAddrs codeOf r.addrs fa }
+  else if (specAddrs E r.addrs fa).isEmpty then none
+  else some { r with addrs := specAddrs E r.addrs fa }
 
-theorem applyAddrFilter_eq (codeOf : String → Nat) (addrs : List Addr) (fa : List String) :
-    applyAddrFilter codeOf addrs fa = specAddrs codeOf addrs fa := by
+theorem applyAddrFilter_eq (E : Env) (addrs : List Addr) (fa : List String) :
+    applyAddrFilter E addrs fa = specAddrs E addrs fa := by
   simp only [applyAddrFilter, specAddrs, splitFilters_eq, addrLoop_eq]
 
-theorem applyFilters_eq (codeOf : String → Nat) (r : Rec) (fa fp : List String) :
-    applyFilters codeOf r fa fp = specApply codeOf r fa fp := by
+theorem applyFilters_eq (E : Env) (r : Rec) (fa fp : List String) :
+    applyFilters E r fa fp = specApply E r fa fp := by
   simp only [applyFilters, specApply, protocolsAllowed_eq, applyAddrFilter_eq]
 
 /-! ### only membership in the filter lists matters -/
@@ -116,40 +116,40 @@ theorem isEmpty_mem_congr {α : Type} {l l' : List α} (h : ∀ x, x ∈ l ↔ x
 theorem contains_mem_congr {l l' : List String} (h : ∀ x, x ∈ l ↔ x ∈ l') (s : String) : l.contains s = l'.contains s := by
   rw [Bool.eq_iff_iff]; simp [h s]
 
-theorem posCodes_mem {codeOf : String → Nat} {fa fa' : List String} (h : ∀ x, x ∈ fa ↔ x ∈ fa') :
-    ∀ x, x ∈ posCodes codeOf fa ↔ x ∈ posCodes codeOf fa' := by
+theorem posCodes_mem {E : Env} {fa fa' : List String} (h : ∀ x, x ∈ fa ↔ x ∈ fa') :
+    ∀ x, x ∈ posCodes E fa ↔ x ∈ posCodes E fa' := by
   intro x; simp only [posCodes, List.mem_map, List.mem_filter, h]
 
-theorem negCodes_mem {codeOf : String → Nat} {fa fa' : List String} (h : ∀ x, x ∈ fa ↔ x ∈ fa') :
-    ∀ x, x ∈ negCodes codeOf fa ↔ x ∈ negCodes codeOf fa' := by
+theorem negCodes_mem {E : Env} {fa fa' : List String} (h : ∀ x, x ∈ fa ↔ x ∈ fa') :
+    ∀ x, x ∈ negCodes E fa ↔ x ∈ negCodes E fa' := by
   intro x; simp only [negCodes, List.mem_map, List.mem_filter, h]
 
-theorem specApply_congr (codeOf : String → Nat) (r : Rec) {fa fa' fp fp' : List String}
+theorem specApply_congr (E : Env) (r : Rec) {fa fa' fp fp' : List String}
     (ha : ∀ x, x ∈ fa ↔ x ∈ fa') (hp : ∀ x, x ∈ fp ↔ x ∈ fp') :
-    specApply codeOf r fa fp = specApply codeOf r fa' fp' := by
+    specApply E r fa fp = specApply E r fa' fp' := by
   have h1 := isEmpty_mem_congr ha
   have h2 := isEmpty_mem_congr hp
-  have h3 : protoKeep r.protocols fp = protoKeep r.protocols fp' := by
+  have h3 : protoKeep E r.protocols fp = protoKeep E r.protocols fp' := by
     simp only [protoKeep, h2, any_mem_congr hp]
   have h4 := contains_mem_congr ha "unknown"
-  have h5 : specAddrs codeOf r.addrs fa = specAddrs codeOf r.addrs fa' := by
+  have h5 : specAddrs E r.addrs fa = specAddrs E r.addrs fa' := by
     simp only [specAddrs, h1]
     congr 1
     apply List.filter_congr
     intro a _
     simp only [addrKeep, any_mem_congr (posCodes_mem ha), any_mem_congr (negCodes_mem ha),
-      isEmpty_mem_congr (posCodes_mem (codeOf := codeOf) ha)]
+      isEmpty_mem_congr (posCodes_mem (E := E) ha)]
   simp only [specApply, h1, h2, h3, h4, h5]
 
 /-! ### idempotence -/
 
-theorem specApply_idem (codeOf : String → Nat) (r r' : Rec) (fa fp : List String)
-    (h : specApply codeOf r fa fp = some r') : specApply codeOf r' fa fp = some r' := by
+theorem specApply_idem (E : Env) (r r' : Rec) (fa fp : List String)
+    (h : specApply E r fa fp = some r') : specApply E r' fa fp = some r' := by
   unfold specApply at h ⊢
   by_cases h0 : (fa.isEmpty && fp.isEmpty) = true
   · simp [h0]
   · simp only [h0, Bool.false_eq_true, if_false] at h ⊢
-    by_cases h1 : (!protoKeep r.protocols fp) = true
+    by_cases h1 : (!protoKeep E r.protocols fp) = true
     · simp [h1] at h
     · simp only [h1, Bool.false_eq_true, if_false] at h
       by_cases h2 : (fa.isEmpty || (r.addrs.isEmpty && fa.contains "unknown")) = true
@@ -157,13 +157,13 @@ theorem specApply_idem (codeOf : String → Nat) (r r' : Rec) (fa fp : List Stri
         subst h
         rw [if_neg h1, if_pos h2]
       · simp only [h2, Bool.false_eq_true, if_false] at h
-        by_cases h3 : (specAddrs codeOf r.addrs fa).isEmpty = true
+        by_cases h3 : (specAddrs E r.addrs fa).isEmpty = true
         · simp [h3] at h
         · simp only [h3, Bool.false_eq_true, if_false, Option.some.injEq] at h
           subst h
           have hfa : fa.isEmpty = false := by
             cases hf : fa.isEmpty <;> simp [hf] at h2 ⊢
-          have hidem : specAddrs codeOf (specAddrs codeOf r.addrs fa) fa = specAddrs codeOf r.addrs fa := by
+          have hidem : specAddrs E (specAddrs E r.addrs fa) fa = specAddrs E r.addrs fa := by
             simp [specAddrs, hfa, List.filter_filter]
           simp only [h1, Bool.false_eq_true, if_false, hidem, h3]
           simp [hfa, h3]
@@ -171,13 +171,13 @@ theorem specApply_idem (codeOf : String → Nat) (r r' : Rec) (fa fp : List Stri
 /-! ### the pipelines -/
 
 /-- what one position of the router's result list contributes to the response -/
-def keepAt (codeOf : String → Nat) (fa fp : List String) (o : Option Rec) : Option Rec :=
-  o.bind (applyRec codeOf fa fp)
+def keepAt (E : Env) (fa fp : List String) (o : Option Rec) : Option Rec :=
+  o.bind (applyRec E fa fp)
 
 /-- the element function of `serve` -/
-def outAt (codeOf : String → Nat) (fa fp : List String) (recs : List (Option Rec)) (i : Int) : Option Rec :=
+def outAt (E : Env) (fa fp : List String) (recs : List (Option Rec)) (i : Int) : Option Rec :=
   match recs[i.toNat]? with
-  | some (some r) => applyRec codeOf fa fp r
+  | some (some r) => applyRec E fa fp r
   | _ => none
 
 theorem take_filterMap_of_some {α β : Type} (g : α → Option β) :
@@ -198,11 +198,11 @@ theorem take_filterMap_of_some {α β : Type} (g : α → Option β) :
         rw [ih k (fun z hz => h z (by simp [hz]))]
 
 /-- the filtered index stream, position by position (`pre` = the results already passed) -/
-theorem stream_spec (codeOf : String → Nat) (fa fp : List String) : ∀ (suf pre : List (Option Rec)),
-    (((idxFrom pre.length suf).map (mapIdx codeOf fa fp (pre ++ suf))).filter (fun i => i ≥ 0)).filterMap
-        (outAt codeOf fa fp (pre ++ suf)) = suf.filterMap (keepAt codeOf fa fp) ∧
-    ∀ i ∈ ((idxFrom pre.length suf).map (mapIdx codeOf fa fp (pre ++ suf))).filter (fun i => i ≥ 0),
-      (outAt codeOf fa fp (pre ++ suf) i).isSome = true := by
+theorem stream_spec (E : Env) (fa fp : List String) : ∀ (suf pre : List (Option Rec)),
+    (((idxFrom pre.length suf).map (mapIdx E fa fp (pre ++ suf))).filter (fun i => i ≥ 0)).filterMap
+        (outAt E fa fp (pre ++ suf)) = suf.filterMap (keepAt E fa fp) ∧
+    ∀ i ∈ ((idxFrom pre.length suf).map (mapIdx E fa fp (pre ++ suf))).filter (fun i => i ≥ 0),
+      (outAt E fa fp (pre ++ suf) i).isSome = true := by
   intro suf
   induction suf with
   | nil => intro pre; simp [idxFrom]
@@ -212,17 +212,17 @@ theorem stream_spec (codeOf : String → Nat) (fa fp : List String) : ∀ (suf p
     simp only [List.length_append, List.length_cons, List.length_nil, List.append_assoc, List.cons_append,
       List.nil_append, Nat.zero_add] at hrec
     have hget : (pre ++ x :: r)[pre.length]? = some x := by simp
-    have hm : mapIdx codeOf fa fp (pre ++ x :: r) (pre.length : Int) =
-        if (keepAt codeOf fa fp x).isSome then (pre.length : Int) else -1 := by
+    have hm : mapIdx E fa fp (pre ++ x :: r) (pre.length : Int) =
+        if (keepAt E fa fp x).isSome then (pre.length : Int) else -1 := by
       simp only [mapIdx, Int.toNat_natCast, hget]
       cases x with
       | none => simp [keepAt]
       | some rc =>
         simp only [keepAt, Option.bind_some]
         have : (pre.length : Int) ≥ 0 := Int.natCast_nonneg _
-        by_cases hs : (applyRec codeOf fa fp rc).isSome = true <;> simp [this, hs]
+        by_cases hs : (applyRec E fa fp rc).isSome = true <;> simp [this, hs]
     simp only [idxFrom, List.map_cons, hm]
-    cases hk : keepAt codeOf fa fp x with
+    cases hk : keepAt E fa fp x with
     | none =>
       have : ¬ ((-1 : Int) ≥ 0) := by omega
       simp only [Option.isSome_none, Bool.false_eq_true, if_false, List.filter_cons, decide_eq_true_eq, this,
@@ -230,7 +230,7 @@ theorem stream_spec (codeOf : String → Nat) (fa fp : List String) : ∀ (suf p
       exact hrec
     | some y =>
       have hp : (pre.length : Int) ≥ 0 := Int.natCast_nonneg _
-      have hout : outAt codeOf fa fp (pre ++ x :: r) (pre.length : Int) = some y := by
+      have hout : outAt E fa fp (pre ++ x :: r) (pre.length : Int) = some y := by
         simp only [outAt, Int.toNat_natCast, hget]
         cases x with
         | none => simp [keepAt] at hk
@@ -244,15 +244,15 @@ theorem stream_spec (codeOf : String → Nat) (fa fp : List String) : ∀ (suf p
       · exact hrec.2 i hi
 
 /-- the response of a handler: the kept records, in order, capped at the limit when it is positive -/
-def specServe (codeOf : String → Nat) (fa fp : List String) (recs : List (Option Rec)) (lim : Int) : List Rec :=
-  if lim > 0 then (recs.filterMap (keepAt codeOf fa fp)).take lim.toNat else recs.filterMap (keepAt codeOf fa fp)
+def specServe (E : Env) (fa fp : List String) (recs : List (Option Rec)) (lim : Int) : List Rec :=
+  if lim > 0 then (recs.filterMap (keepAt E fa fp)).take lim.toNat else recs.filterMap (keepAt E fa fp)
 
-theorem serve_eq_outAt (codeOf : String → Nat) (sh : C43.Shape) (fa fp : List String) (recs : List (Option Rec)) :
-    serve codeOf sh fa fp recs = ((C43.readAll sh (C43.fresh (idxFrom 0 recs) sh)).2).filterMap (outAt codeOf fa fp recs) := rfl
+theorem serve_eq_outAt (E : Env) (sh : C43.Shape) (fa fp : List String) (recs : List (Option Rec)) :
+    serve E sh fa fp recs = ((C43.readAll sh (C43.fresh (idxFrom 0 recs) sh)).2).filterMap (outAt E fa fp recs) := rfl
 
-theorem serveProviders_eq (codeOf : String → Nat) (fa fp : List String) (recs : List (Option Rec)) (lim : Int) :
-    serveProviders codeOf fa fp recs lim = specServe codeOf fa fp recs lim := by
-  have hs := stream_spec codeOf fa fp recs []
+theorem serveProviders_eq (E : Env) (fa fp : List String) (recs : List (Option Rec)) (lim : Int) :
+    serveProviders E fa fp recs lim = specServe E fa fp recs lim := by
+  have hs := stream_spec E fa fp recs []
   simp only [List.nil_append, List.length_nil] at hs
   unfold serveProviders specServe
   rw [serve_eq_outAt, C43.c43_compose]
@@ -263,9 +263,9 @@ theorem serveProviders_eq (codeOf : String → Nat) (fa fp : List String) (recs 
   · simp only [hl, if_false]
     exact hs.1
 
-theorem servePeers_eq (codeOf : String → Nat) (fa fp : List String) (recs : List (Option Rec)) (lim : Int) :
-    servePeers codeOf fa fp recs lim = specServe codeOf fa fp recs lim := by
-  have hs := stream_spec codeOf fa fp recs []
+theorem servePeers_eq (E : Env) (fa fp : List String) (recs : List (Option Rec)) (lim : Int) :
+    servePeers E fa fp recs lim = specServe E fa fp recs lim := by
+  have hs := stream_spec E fa fp recs []
   simp only [List.nil_append, List.length_nil] at hs
   unfold servePeers specServe
   rw [serve_eq_outAt, C43.c43_compose]
@@ -282,8 +282,8 @@ theorem filterMap_fixed {α : Type} (g : α → Option α) : ∀ (l : List α), 
   | nil => intro _; rfl
   | cons x r ih => intro h; simp [h x (by simp), ih (fun y hy => h y (by simp [hy]))]
 
-theorem applyFilters_schema (codeOf : String → Nat) (r r' : Rec) (fa fp : List String)
-    (h : applyFilters codeOf r fa fp = some r') : r'.schema = r.schema ∧ r'.id = r.id ∧ r'.protocols = r.protocols := by
+theorem applyFilters_schema (E : Env) (r r' : Rec) (fa fp : List String)
+    (h : applyFilters E r fa fp = some r') : r'.schema = r.schema ∧ r'.id = r.id ∧ r'.protocols = r.protocols := by
   rw [applyFilters_eq] at h
   unfold specApply at h
   split at h
@@ -296,20 +296,20 @@ theorem applyFilters_schema (codeOf : String → Nat) (r r' : Rec) (fa fp : List
         · simp at h
         · simp at h; subst h; simp
 
-theorem applyRec_idem (codeOf : String → Nat) (fa fp : List String) (r r' : Rec)
-    (h : applyRec codeOf fa fp r = some r') : applyRec codeOf fa fp r' = some r' := by
+theorem applyRec_idem (E : Env) (fa fp : List String) (r r' : Rec)
+    (h : applyRec E fa fp r = some r') : applyRec E fa fp r' = some r' := by
   unfold applyRec at h ⊢
-  have hs := (applyFilters_schema codeOf _ r' fa fp h).1
+  have hs := (applyFilters_schema E _ r' fa fp h).1
   have : ({ r' with schema := 0 } : Rec) = r' := by
     cases r'; simp_all
   rw [this]
   rw [applyFilters_eq] at h ⊢
-  exact specApply_idem codeOf _ r' fa fp h
+  exact specApply_idem E _ r' fa fp h
 
-theorem mem_specServe (codeOf : String → Nat) (fa fp : List String) (recs : List (Option Rec)) (lim : Int) :
-    ∀ x ∈ specServe codeOf fa fp recs lim, ∃ r, some r ∈ recs ∧ applyRec codeOf fa fp r = some x := by
+theorem mem_specServe (E : Env) (fa fp : List String) (recs : List (Option Rec)) (lim : Int) :
+    ∀ x ∈ specServe E fa fp recs lim, ∃ r, some r ∈ recs ∧ applyRec E fa fp r = some x := by
   intro x hx
-  have hx' : x ∈ recs.filterMap (keepAt codeOf fa fp) := by
+  have hx' : x ∈ recs.filterMap (keepAt E fa fp) := by
     unfold specServe at hx
     split at hx
     · exact List.mem_of_mem_take hx
